@@ -528,6 +528,22 @@ class SameMinimum:
         if bad:
             return Result(REFUTED, backend="native", witness=dict(seed=seed), replayed=True, replay_info=dict(energies=results),
                           detail=f"minimisers disagree on the minimum (or do not converge): {bad} (lowest {ebest})")
+        # two spin channels and two k-points (every scheme loops over both: an index slip in one of the loops shows here, not in the one-channel case)
+        res2 = {}
+        for name, opt in (("sd", {"sd": 4000}), ("pclm", {"pclm": 600}), ("lm", {"lm": 2500}), ("pccg", {"pccg": 300}), ("cg", {"cg": 900}), ("auto", {"auto": 300})):
+            at = Atoms("He", [0.1, 0.2, 0.3], ecut=4, a=[[3.6, 0.3, 0.1], [0.2, 3.9, 0.4], [0.5, 0.1, 4.2]], unrestricted=True)  # small cell: dispersion
+            at.kpts.kmesh = [2, 1, 1]
+            at.kpts.kshift = [0.11, 0.05, 0.0]  # the two k-points are not each other's time-reversal partners
+            scf2 = SCF(at, etol=1e-8, verbose="critical", opt=opt)
+            res2[name] = (float(scf2.run()), bool(scf2.is_converged))
+        eb2 = min(v[0] for v in res2.values())
+        # schemes that did not converge within their cap are not compared (steepest descent and unpreconditioned line minimisation are slow in a small cell)
+        bad2 = {k: v for k, v in res2.items() if v[1] and abs(v[0] - eb2) > 2e-5}
+        if sum(1 for v in res2.values() if v[1]) < 3:
+            bad2 = {k: v for k, v in res2.items() if not v[1]}
+        if bad2:
+            return Result(REFUTED, backend="native", witness=dict(seed=seed, system="He unrestricted, 2 k-points"), replayed=True, replay_info=dict(energies=res2),
+                          detail=f"minimisers disagree on the minimum for two spin channels and two k-points (or do not converge): {bad2} (lowest {eb2})")
         # restart from the converged state: immediate convergence, same energy
         e0 = ref.energies.Etot
         ref.opt = {"pccg": 5}
@@ -669,3 +685,115 @@ for _mod in ("eminus.minimizer", "eminus.band_minimizer"):
         register(Obligation(name=f"C14.{_mod.split('.')[1]}.{_wr}.wraps_{_tg}_unpreconditioned", prop=PROP, engine="Z", functions=[f"{_mod}:{_wr}", f"{_mod}:{_tg}"],
                             run=SchemeWrapper(_mod, _wr, _tg), assumes=("engineZ",),
                             doc=f"{_mod}.{_wr} = {_tg} with preconditioning switched off and every other argument (cost, gradient, condition, step, cg form) handed on unchanged"))
+
+
+class AutoFallback:
+    """BOUNDED: `auto` from the `pseudo` start on a small unrestricted cell with two k-points: when it reports convergence its energy is the minimum the
+    line-minimisation scheme finds (OPEN FINDING on the pinned tree: its steepest-descent fall-back step changes the energy by less than etol far from
+    the minimum and convergence is reported 2e-5 Eh above it; pccg from the same start does not converge in 1500 iterations)."""
+
+    def energies(self):
+        import eminus
+        from eminus import SCF, Atoms
+
+        eminus.config.backend = "numpy"
+        eminus.config.verbose = "critical"
+        out = {}
+        for name, opt in (("pclm", {"pclm": 400}), ("auto", {"auto": 400})):
+            at = Atoms("He", [0.1, 0.2, 0.3], ecut=4, a=[[3.6, 0.3, 0.1], [0.2, 3.9, 0.4], [0.5, 0.1, 4.2]], unrestricted=True)
+            at.kpts.kmesh = [2, 1, 1]
+            at.kpts.kshift = [0.11, 0.05, 0.0]
+            scf = SCF(at, etol=1e-8, verbose="critical", opt=opt, guess="pseudo")
+            out[name] = (float(scf.run()), bool(scf.is_converged), int(scf._opt_log[name]["iter"]))
+        return out
+
+    def __call__(self, ob, tier, seed):
+        from pycv.framework import BOUNDED_OK
+
+        r = self.energies()
+        gap = r["auto"][0] - r["pclm"][0]
+        if r["auto"][1] and r["pclm"][1] and gap > 5e-6:
+            return Result(REFUTED, backend="native", witness=dict(system="He unrestricted, 3.6-4.2 bohr cell, kmesh [2,1,1] shifted, guess pseudo"), replayed=True, replay_info=dict(energies=r),
+                          detail=f"auto reports convergence {gap:.1e} Eh above the minimum found by pclm (etol 1e-8): premature convergence in the steepest-descent fall-back")
+        if not (r["auto"][1] and r["pclm"][1]):
+            return Result(UNDECIDED, backend="native", detail=f"not converged within the caps: {r}")
+        return Result(BOUNDED_OK, backend="native", detail=f"bounded: auto and pclm agree to {abs(gap):.1e} Eh")
+
+    def replay(self, wit):
+        r = self.energies()
+        return bool(r["auto"][1] and r["auto"][0] - r["pclm"][0] > 5e-6), dict(energies=r)
+
+
+register(Obligation(name="C14.auto.converged_energy_is_the_minimum.pseudo_start", prop=PROP, engine="B", bounded=True, run=AutoFallback(), budget={"quick": 300, "thorough": 600},
+                    functions=["eminus.minimizer:auto", "eminus.minimizer:check_convergence"],
+                    doc="BOUNDED: the energy at which auto reports convergence is the minimum (small unrestricted cell, two k-points, pseudo start)"))
+
+
+class SchemeEquivariance:
+    """BOUNDED: a few iterations of every scheme on a system with two k-points (unequal weights) and two spin channels give the same energies when the
+    k-points (with weights and start coefficients) are listed in the other order, and when the two spin channels of the start coefficients are
+    exchanged: the loops over k-points and spin channels treat every channel alike (an index slip in one loop breaks this after the first step)."""
+
+    def __init__(self, fresh_object=False):
+        # fresh_object = True: the scheme starts on an SCF object without pre-computed fields (the state SCF.run leaves it in before the first iteration)
+        self.fresh_object = fresh_object
+
+    def run_case(self, scheme, order, swap, W0=None):
+        import eminus
+        from eminus import SCF, Atoms
+        from eminus.dft import guess_random
+
+        eminus.config.backend = "numpy"
+        eminus.config.verbose = "critical"
+        ks = np.array([[0.05, 0.1, -0.02], [0.31, -0.13, 0.17]])
+        wk = np.array([0.35, 0.65])
+        at = Atoms("He", [0.1, 0.2, 0.3], ecut=4, a=[[3.6, 0.3, 0.1], [0.2, 3.9, 0.4], [0.5, 0.1, 4.2]], unrestricted=True)
+        at.set_k(ks[list(order)], wk[list(order)])
+        scf = SCF(at, etol=1e-14, verbose="critical", opt={scheme: 4})
+        if W0 is None:
+            W0 = [np.asarray(w).copy() for w in guess_random(scf, seed=7)]
+            # different start coefficients in the two spin channels
+            W0 = [w * np.array([1.0, 0.7])[:, None, None] + 0.1 * np.roll(w, 1, axis=1) * np.array([0.0, 1.0])[:, None, None] for w in W0]
+        W = [W0[i] for i in order]
+        if swap:
+            W = [w[::-1].copy() for w in W]
+        scf.W = [w.copy() for w in W]
+        from eminus import minimizer as M
+
+        scf.clear()
+        scf.energies.Eewald = 0.0
+        if not self.fresh_object:
+            scf._precompute()  # fields of the start coefficients (what every later iteration has from the preceding energy evaluation)
+        e = float(M.IMPLEMENTED[scheme](scf, 4)[-1])
+        return e, W0
+
+    def __call__(self, ob, tier, seed):
+        from pycv.framework import BOUNDED_OK
+
+        worst, info = 0.0, {}
+        for scheme in ("sd", "lm", "pclm", "cg", "pccg", "auto"):
+            try:
+                e0, W0 = self.run_case(scheme, (0, 1), False)
+                e1, _ = self.run_case(scheme, (1, 0), False, W0)
+                e2, _ = self.run_case(scheme, (0, 1), True, W0)
+            except Exception as e:  # noqa: BLE001
+                return Result(REFUTED, backend="native", witness=dict(scheme=scheme), replayed=True, replay_info=dict(raised=f"{type(e).__name__}: {e}"), detail=f"{scheme}: raises {type(e).__name__}: {e}")
+            d = max(abs(e1 - e0), abs(e2 - e0))
+            info[scheme] = dict(E=e0, k_order_swapped=e1 - e0, spin_channels_swapped=e2 - e0)
+            worst = max(worst, d)
+            if d > 1e-8:
+                return Result(REFUTED, backend="native", witness=dict(scheme=scheme), replayed=True, replay_info=info,
+                              detail=f"{scheme}: four iterations give another energy when the k-points are listed in the other order ({e1 - e0:.2e}) / the spin channels are exchanged ({e2 - e0:.2e})")
+        return Result(BOUNDED_OK, backend="native", stats=info, detail=f"bounded: six schemes, four iterations, He unrestricted, two weighted k-points: energies independent of k-point order and spin labelling to {worst:.1e}")
+
+    def replay(self, wit):
+        r = self(None, "quick", 0)
+        return r.verdict == REFUTED, dict(detail=r.detail)
+
+
+register(Obligation(name="C14.minimisers.kpoint_and_spin_channel_equivariance.fresh_object", prop=PROP, engine="B", bounded=True, run=SchemeEquivariance(fresh_object=True),
+                    budget={"quick": 300, "thorough": 600}, functions=["eminus.minimizer:pclm", "eminus.minimizer:pccg", "eminus.minimizer:auto", "eminus.dft:H_precompute"],
+                    doc="BOUNDED: the same on an SCF object that holds no pre-computed fields yet (first iteration of the line-minimising schemes)"))
+register(Obligation(name="C14.minimisers.kpoint_and_spin_channel_equivariance", prop=PROP, engine="B", bounded=True, run=SchemeEquivariance(), budget={"quick": 300, "thorough": 600},
+                    functions=["eminus.minimizer:sd", "eminus.minimizer:lm", "eminus.minimizer:pclm", "eminus.minimizer:cg", "eminus.minimizer:pccg", "eminus.minimizer:auto"],
+                    doc="BOUNDED: every scheme treats all k-points and both spin channels alike (energies after four iterations do not depend on their order)"))
